@@ -22,7 +22,10 @@ THEOREMS = ["Tx3.Tii.C17_same_spelling", "Tx3.Tii.C17_required_are_declared", "T
 RULE = (
     "cases = programs with 2 parties, 2-4 transaction parameters (one unused in half of them), optionally an env block "
     "with two values used in the body, identifiers independently drawn in lower / UPPER / Title / MiXeD case; every "
-    "sixth program has two parameters equal up to case; plus the reproduced corpus case tx t(Qty: Int). "
+    "sixth program has two parameters equal up to case; every transaction has one parameter used exactly once, at a "
+    "position that rotates over map key, map value, list element, record field, metadata key and value, validity "
+    "bounds, mint amount and redeemer, withdrawal amount and redeemer, an output of its own; plus the reproduced "
+    "corpus case tx t(Qty: Int). "
     "Non-trivial = every case; distinct = distinct program text"
 )
 ASSUMPTIONS = ["policies needing scripts are not generated yet"]
